@@ -75,6 +75,10 @@ CLAIMS = {
          "Safety skeleton only (liveness under all interleavings is not a static property and is not claimed): one writer of the real sink and one Write per complete line; each channel is made once, closed at most once after all senders, stop/searchFin never sent on, ponderHit sent at most once on a buffered channel; every goroutine is joined on every path; Search.Go -> close(searchFin) -> Wait -> exactly one bestmove on every path; the interrupt goroutine always closes stop, can always leave through searchFin, and returns on closed input; no variable is written by a goroutine and touched by its spawner before Wait; pipeline channels are closed in order. A violation implies a command timing with a torn/missing/duplicate answer, a panic on a channel, a leaked goroutine or a data race.",
          "Trusts go/ssa and the Go memory model facts about WaitGroup.Wait and channel close; deadlock-freedom under all schedules is not decided.",
          "DESIGN.md §3 C13"),
+ "C16": ("interval evaluation over SSA of the weight formulas (bands cannot overlap, also with spsa ranges), signed-term decomposition of the history gravity updates, path-by-path model of the stage machine, recognition of ranking and selection loops, one-step-per-yield dataflow",
+         "Structural necessary conditions: the value ranges of good captures, quiets, bad captures, the duplicate sentinel and the hash weight are strictly ordered against the yield thresholds and fit int16; each history table saturates at MaxHistory (same constant in clamp and divisor, product formed wide enough); each generator runs at most once and the hash move comes first behind the IsPseudoLegal gate; both ranking loops rank exactly the newly generated tail and give the hash move's second copy the sentinel; every yield steps the cursor exactly once after a swap; exhaustion is reported only after both generators ran. Multiset equality of picker output for concrete history states is not decided.",
+         "Trusts go/ssa; interval evaluator is sound but incomplete (unbounded => undecided).",
+         "DESIGN.md §3 C16"),
 }
 
 NOT_YET = "no static rule of DESIGN.md §3 for this property is built in this revision yet; not claimed"
